@@ -299,7 +299,7 @@ func ruleBatchTimer(c *Ctx, r *R) {
 		okPred := false
 		instrs(pred, func(b *ssa.BasicBlock, i int, in ssa.Instruction) {
 			if ret, ok := in.(*ssa.Return); ok && len(ret.Results) == 1 {
-				if bin, ok := ret.Results[0].(*ssa.BinOp); ok && bin.Op == token.GEQ {
+				if bin, ok := returnedValue(ret, 0).(*ssa.BinOp); ok && bin.Op == token.GEQ {
 					if call, ok := bin.X.(*ssa.Call); ok {
 						if bb, ok := call.Call.Value.(*ssa.Builtin); ok && bb.Name() == "len" && strings.Contains(path(bin.Y), "batchSize") {
 							okPred = true
@@ -809,7 +809,7 @@ func ruleBatchDelivery(c *Ctx, r *R) {
 				continue
 			}
 			if ret, ok := b.Instrs[len(b.Instrs)-1].(*ssa.Return); ok && len(ret.Results) == 2 {
-				e := path(ret.Results[1])
+				e := path(returnedValue(ret, 1))
 				if errNonNil && strings.HasSuffix(e, ".err") {
 					retErr = true
 				}
@@ -817,7 +817,7 @@ func ruleBatchDelivery(c *Ctx, r *R) {
 					retEnd = true
 				}
 				// the choice lives in a helper of the stream (`return nil, s.endErr()`): err if non-nil, End otherwise
-				if hc, ok := ret.Results[1].(*ssa.Call); ok {
+				if hc, ok := returnedValue(ret, 1).(*ssa.Call); ok {
 					if cal := staticCallee(&hc.Call); cal != nil && cal.Blocks != nil && rootFn(origin(cal)).Pkg == rootFn(fn).Pkg {
 						hErr, hEnd := false, false
 						for _, hb := range origin(cal).Blocks {
@@ -835,7 +835,7 @@ func ruleBatchDelivery(c *Ctx, r *R) {
 									}
 								}
 							}
-							he := path(hr.Results[0])
+							he := path(returnedValue(hr, 0))
 							if nn && strings.HasSuffix(he, ".err") {
 								hErr = true
 							}
